@@ -353,7 +353,12 @@ func maxValue(char *gen.CharacteristicMetadata) interface{} {
 }
 
 func stepValue(char *gen.CharacteristicMetadata) interface{} {
-	return constraintWithKey(char, "StepValue")
+	if step := constraintWithKey(char, "StepValue"); step != nil {
+		return step
+	}
+
+	// The metadata of some characteristics (e.g. Filter Life Level) spell the key in lower case
+	return constraintWithKey(char, "stepValue")
 }
 
 func constDecls(char *gen.CharacteristicMetadata) []ConstDecl {
